@@ -34,10 +34,10 @@ static const entry_t pool[] = {
 static size_t hexcat(char *out, const char *s, size_t n) { size_t i, k = 0; for (i = 0; i < n; i++) k += (size_t) sprintf(out + k, "%02x", (unsigned char) s[i]); if (!n) { out[0] = '-'; k = 1; } out[k] = 0; return k; }
 
 /* table text from a list of pool indices; tag = position + 1 */
-static size_t build_table(char *out, const int *idx, int n) {
+static size_t build_table_from(const entry_t *from, char *out, const int *idx, int n) {
     size_t k = 0; int i;
     for (i = 0; i < n; i++) {
-        const entry_t *e = &pool[idx[i]]; const char *sc = e->script; char fixed[256]; size_t j = 0;
+        const entry_t *e = &from[idx[i]]; const char *sc = e->script; char fixed[256]; size_t j = 0;
         if (i) out[k++] = ';';
         k += hexcat(out + k, e->pattern, strlen(e->pattern));
         /* "ePush" placeholder and base letter 'a' (=10) are expanded here */
@@ -52,6 +52,8 @@ static size_t build_table(char *out, const int *idx, int n) {
     out[k] = 0;
     return k;
 }
+
+static size_t build_table(char *out, const int *idx, int n) { return build_table_from(pool, out, idx, n); }
 
 /* a header spelling of a pattern: optional parts kept or dropped, short or long forms, random case, numeric suffixes */
 static size_t spell_header(char *out, const char *pattern, int exact) {
@@ -427,4 +429,125 @@ void dom_p17(void) {
       for (i = 0; i < 8; i++) { sprintf(line, "P 64 4 423f:1:rKH,%u/rKD,6162636465/rKD,-/rKD,66 423f0a", big[i]); emit_case(line); } }
     /* header-only calls for every power of ten up to 10^8 */
     { unsigned p = 1; int i; for (i = 0; i <= 8; i++) { sprintf(line, "P 64 4 423f:1:rKH,%u 423f0a", p); emit_case(line); sprintf(line, "P 64 4 423f:1:rKH,%u 423f0a", p - 1 + (i == 0)); emit_case(line); p *= 10; } }
+}
+
+/* P21 ("instrument"): the library's own handlers (script op bI,<name>) bound to the standard headers, a handful of scripted
+ * commands that queue errors or answer, and sessions of 1..12 messages; between messages the "firmware" changes condition /
+ * event registers with SCPI_RegSet (pseudo-chunk =G<reg>:<hex4>), so that summary bits and service requests come and go. */
+static const entry_t ipool[] = {
+    {"*CLS", "bI,CLS"}, {"*ESE", "bI,ESE"}, {"*ESE?", "bI,ESEQ"}, {"*ESR?", "bI,ESRQ"}, {"*IDN?", "bI,IDNQ"}, {"*OPC", "bI,OPC"}, {"*OPC?", "bI,OPCQ"},
+    {"*RST", "bI,RST"}, {"*SRE", "bI,SRE"}, {"*SRE?", "bI,SREQ"}, {"*STB?", "bI,STBQ"}, {"*TST?", "bI,TSTQ"}, {"*WAI", "bI,WAI"},
+    {"SYSTem:ERRor[:NEXT]?", "bI,ERRNEXTQ"}, {"SYSTem:ERRor:COUNt?", "bI,ERRCOUNTQ"}, {"SYSTem:VERSion?", "bI,VERSQ"},
+    {"STATus:QUEStionable[:EVENt]?", "bI,QEVENQ"}, {"STATus:QUEStionable:CONDition?", "bI,QCONDQ"},
+    {"STATus:QUEStionable:ENABle", "bI,QENAB"}, {"STATus:QUEStionable:ENABle?", "bI,QENABQ"},
+    {"STATus:OPERation[:EVENt]?", "bI,OEVENQ"}, {"STATus:OPERation:CONDition?", "bI,OCONDQ"},
+    {"STATus:OPERation:ENABle", "bI,OENAB"}, {"STATus:OPERation:ENABle?", "bI,OENABQ"}, {"STATus:PRESet", "bI,PRES"},
+    {"STUB", "bI,STUB"}, {"STUB?", "bI,STUBQ"},
+    /* 27.. scripted: error pushers of every class, with and without text, answers, mixtures with builtins */
+    {"ERR:CMD", "eP,-100,N"}, {"ERR:EXEC", "eP,-222,4142"}, {"ERR:DEV", "eP,-300,N"}, {"ERR:QUERy", "eP,-400,N"}, {"ERR:USER", "eP,100,75736572"},
+    {"ERR:PON", "eP,-500,N"}, {"ERR:URQ", "eP,-600,N"}, {"ERR:QUOTe", "eP,-230,6122622263"}, {"ERR:TWO", "eP,-221,N/eP,-310,7478"},
+    {"ERR:UNKNown", "eP,-9999,78"}, {"ERR:OPC", "eP,-800,N"},
+    {"Q1?", "rI,32,1,1,a"}, {"ECHO?", "pI,32,1,1/rI,32,1,7,a"}, {"SET", "pI,32,1,1"}, {"FAIL", "ret,0"},
+    {"MIX:ESR?", "rI,32,1,9,a/bI,ESRQ/bI,STBQ"}, {"MIX:ERR?", "eP,-222,N/bI,ERRCOUNTQ/bI,ERRNEXTQ"}, {"MIX:ESE", "oF,1/bI,ESE/iT"}, {"MIX:CLS", "eP,-100,N/bI,CLS/rI,32,1,3,a"},
+};
+#define NIPOOL ((int)(sizeof ipool / sizeof ipool[0]))
+#define NISTD 27
+
+/* a valid spelling: every keyword wholly in its short or in its long form, optional parts kept or dropped, random case */
+static size_t spell_valid(char *out, const char *pattern) {
+    const char *p = pattern; size_t k = 0; int skip = 0;
+    while (*p) {
+        if (*p == '[') { skip = h_chance(50); p++; continue; }
+        if (*p == ']') { skip = 0; p++; continue; }
+        if (skip) { p++; continue; }
+        if (islower((unsigned char) *p)) {
+            int drop = h_chance(50);
+            while (islower((unsigned char) *p)) { if (!drop) out[k++] = h_chance(50) ? (char) toupper((unsigned char) *p) : *p; p++; }
+            continue;
+        }
+        out[k++] = h_chance(50) ? (char) tolower((unsigned char) *p) : *p; p++;
+    }
+    out[k] = 0;
+    return k;
+}
+
+static int is_setter(const char *script) {
+    return !strcmp(script, "bI,ESE") || !strcmp(script, "bI,SRE") || !strcmp(script, "bI,QENAB") || !strcmp(script, "bI,OENAB") || !strcmp(script, "oF,1/bI,ESE/iT");
+}
+
+static size_t gen_regval(char *out) {
+    static const unsigned nice[] = {0, 1, 4, 8, 16, 32, 36, 60, 64, 96, 128, 255, 256, 512, 4096, 32767, 32768, 65535};
+    static const char *outside[] = {"65536", "65537", "70000", "131072", "-1", "-32768", "-65536", "2147483647", "2147483648", "-2147483648", "-2147483649", "4294967295", "99999999999"};
+    static const char *odd[] = {"ABC", "\"x\"", "1.5", "1e2", "12 V", "(1)", "1,2", "MIN", "#13abc", "1 2", ",", "1,", "'4'", "#H", "+", "32,", "#HFFFFF"};
+    unsigned r = h_below(100); size_t k = 0;
+    if (r < 66) { unsigned v = h_chance(60) ? nice[h_below(18)] : h_below(65536); k = (size_t) sprintf(out, "%s%u", h_chance(8) ? "+" : "", v); }
+    else if (r < 78) { unsigned v = h_chance(50) ? nice[h_below(18)] : h_below(65536), b = h_below(3);
+        if (b == 0) k = (size_t) sprintf(out, h_chance(50) ? "#H%X" : "#h%x", v);
+        else if (b == 1) k = (size_t) sprintf(out, "#Q%o", v);
+        else { int i, started = 0; k = (size_t) sprintf(out, "#B"); for (i = 15; i >= 0; i--) { if ((v >> i) & 1) started = 1; if (started || i == 0) out[k++] = (char)('0' + ((v >> i) & 1)); } out[k] = 0; } }
+    else if (r < 86) k = (size_t) sprintf(out, "%s", outside[h_below(13)]);
+    else if (r < 90) { out[0] = 0; k = 0; }
+    else k = (size_t) sprintf(out, "%s", odd[h_below(17)]);
+    return k;
+}
+
+static size_t gen_imsg(char *out, const int *idx, int n) {
+    size_t k = 0; int u, units = h_chance(65) ? 1 : 1 + (int) h_below(4);
+    static const char *undef[] = { "FOO", "*XYZ?", "SYST:NOPE", "STAT:QUES:ENAB:X", "*ESE:X", "STATus", "SYST:ERR:NEXT:Q?", "*" };
+    for (u = 0; u < units; u++) {
+        const entry_t *e = &ipool[idx[h_below((unsigned) n)]]; const char *pat; char tmp[96]; int query;
+        /* register writers and error pushers more often than their share of the table */
+        { unsigned want = h_below(100); int tries;
+          for (tries = 0; tries < 6; tries++) {
+              if (want < 25 ? is_setter(e->script) : want < 40 ? !strncmp(e->script, "eP", 2) : 1) break;
+              e = &ipool[idx[h_below((unsigned) n)]];
+          } }
+        pat = e->pattern; query = pat[strlen(pat) - 1] == '?';
+        if (u) { out[k++] = ';'; if (h_chance(15)) out[k++] = ' '; }
+        if (h_chance(3)) continue;
+        if (h_chance(5)) { k += (size_t) sprintf(out + k, "%s", undef[h_below(8)]); if (h_chance(30)) k += (size_t) sprintf(out + k, " 1"); continue; }
+        if (u && h_chance(25) && pat[0] != '*') {
+            const char *c = strrchr(pat, ':');
+            if (c) { spell_valid(tmp, c + 1); k += (size_t) sprintf(out + k, "%s", tmp); }
+            else k += spell_valid(out + k, pat);
+        } else { if (pat[0] != '*' && h_chance(40)) out[k++] = ':'; k += h_chance(93) ? spell_valid(out + k, pat) : spell_header(out + k, pat, 0); }
+        if (is_setter(e->script) || strstr(e->script, "pI,")) {
+            size_t l = gen_regval(tmp);
+            if (l || h_chance(50)) { out[k++] = ' '; if (h_chance(10)) out[k++] = ' '; memcpy(out + k, tmp, l); k += l; if (h_chance(8)) out[k++] = ' '; }
+        } else if (h_chance(query ? 6 : 8)) { out[k++] = ' '; k += gen_regval(out + k); }
+    }
+    { unsigned t = h_below(100); if (t < 80) out[k++] = '\n'; else if (t < 93) { out[k++] = '\r'; out[k++] = '\n'; } else if (t < 96) out[k++] = '\r'; /* else unterminated: joins the next message */ }
+    out[k] = 0;
+    return k;
+}
+
+void dom_p21(void) {
+    unsigned long cnt = h_thorough ? 1200000 : 120000;
+    static char line[140000], table[30000], msg[4096]; int idx[40], n;
+    static const int evregs[] = {6, 9, 6, 9, 4, 7, 2, 3, 1};   /* OPERC QUESC (twice as often) OPER QUES ESR ESE SRE */
+    for (; cnt; cnt--) {
+        size_t k; int m, items = 1 + (int) h_below(12), i, extra = 3 + (int) h_below(8);
+        int bufsize = h_chance(85) ? 256 : 40 + (int) h_below(60), qcap = h_chance(50) ? 2 + (int) h_below(3) : h_chance(50) ? 16 : 1 + (int) h_below(8);
+        n = 0; for (i = 0; i < NISTD; i++) idx[n++] = i;
+        for (i = 0; i < extra; i++) idx[n++] = NISTD + (int) h_below((unsigned)(NIPOOL - NISTD));
+        for (i = n - 1; i > 0; i--) { int j = (int) h_below((unsigned) i + 1), t = idx[i]; idx[i] = idx[j]; idx[j] = t; }
+        build_table_from(ipool, table, idx, n);
+        k = (size_t) sprintf(line, "P %d %d %s", bufsize, qcap, table);
+        for (m = 0; m < items; m++) {
+            if (h_chance(14)) {
+                static const unsigned bits[] = {0, 1, 2, 4, 16, 32, 256, 512, 0x8000, 0xffff};
+                k += (size_t) sprintf(line + k, " =G%d:%04x", evregs[h_below(9)], h_chance(70) ? bits[h_below(10)] : h_below(65536));
+            } else {
+                size_t ml = gen_imsg(msg, idx, n), off = 0;
+                while (off < ml) {
+                    size_t c = h_chance(80) ? ml - off : 1 + h_below((unsigned)(ml - off));
+                    line[k++] = ' '; k += chunk_hex(line + k, msg + off, c); off += c;
+                }
+                if (h_chance(5)) k += (size_t) sprintf(line + k, " -");
+            }
+            if (k > sizeof line - 9000) break;
+        }
+        line[k] = 0;
+        emit_case(line);
+    }
 }
